@@ -7,6 +7,7 @@ Import ListNotations.
 (* ------------------------------------------------------------------------------------------ *)
 (* generic facts *)
 Arguments upd : simpl never.
+Arguments dep1 : simpl never.
 Lemma upd_same : forall A (m : nat -> A) k v, upd m k v k = v.
 Proof. intros. unfold upd. now rewrite Nat.eqb_refl. Qed.
 Lemma upd_other : forall A (m : nat -> A) k v j, j <> k -> upd m k v j = m j.
@@ -1570,7 +1571,7 @@ Definition ex_zero : nat -> N := fun _ => 0%N.
 (* two threads fill a pool of two slots whose cursor starts at 2^64 - 1 (so it wraps past 2^64 and
    around the pool); a third request finds the pool full; after a release the slot is found again,
    skipping the slot the requester holds itself *)
-Definition ex_pool_cfg : config := mkConfig 2 2 ex_none ex_none (WORD - 1)%N ex_zero ex_zero ex_zero.
+Definition ex_pool_cfg : config := mkConfig 2 2 ex_none ex_none true (WORD - 1)%N ex_zero ex_zero ex_zero.
 Definition ex_pool_sched : list (nat * op) :=
   flat_map (fun _ => [(0, OGet); (1, OGet)]) (seq 0 8)      (* both get a slot, steps interleaved *)
   ++ repeat (1, OGet) 2                                     (* thread 1 lost the race on the max counter: retry *)
@@ -1595,7 +1596,7 @@ Proof. vm_compute. reflexivity. Qed.
    lock 1 is released the same scan hands out task 0 with both locks *)
 Definition ex_q_cfg : config :=
   mkConfig 2 1 (fun k => match k with 0 => Some 0 | 1 => Some 1 | _ => None end)
-               (fun k => match k with 0 => Some 1 | 1 => Some 0 | _ => None end) 0%N ex_zero ex_zero ex_zero.
+               (fun k => match k with 0 => Some 1 | 1 => Some 0 | _ => None end) true 0%N ex_zero ex_zero ex_zero.
 Definition ex_q_sched : list (nat * op) :=
   repeat (1, OTryLock 1) 2 ++ repeat (0, OAddTask 0 0) 3
   ++ repeat (0, OGetTask 0) 6          (* start, queue lock, lock 0, lock 1 (fails), rollback, queue unlock *)
@@ -1667,9 +1668,11 @@ Proof.
 Qed.
 
 (* ------------------------------------------------------------------------------------------ *)
-(* the hypothesis "the locks of a task are different locks" of the progress theorems is needed:
-   a task that names the same lock twice is never handed out, to nobody, whatever the schedule
-   (lock_dependency takes the lock, fails on it the second time, and rolls back) *)
+(* set_extra_dependency and a task that is given the same lock twice (defect D2).
+   Pinned commit ([dedup = false]): both dependencies are stored; such a task is never handed out,
+   to nobody, whatever the schedule (lock_dependency takes the lock, fails on it the second time
+   and rolls back).  Repaired code ([dedup = true]): the second dependency is dropped, the locks
+   of every task are different locks, and the progress theorems need no side condition. *)
 Lemma same_lock_twice_never_handed : forall cfg s k l, reach cfg s ->
   dep0 cfg k = Some l -> dep1 cfg k = Some l ->
   forall t, ~ In k (htasks (thr s t)).
@@ -1683,14 +1686,77 @@ Proof.
   destruct (Nat.eq_dec l l); [|congruence]. lia.
 Qed.
 
-Lemma same_lock_twice_never_returned : forall cfg s t c o k l, reach cfg s -> wf_choice s t c = true ->
-  dep0 cfg k = Some l -> dep1 cfg k = Some l ->
+Lemma dep1_pinned : forall cfg k, dedup cfg = false -> dep1 cfg k = xdep1 cfg k.
+Proof. intros cfg k H. unfold dep1. rewrite H. destruct (xdep1 cfg k); reflexivity. Qed.
+
+Lemma same_lock_twice_never_returned_pinned : forall cfg s t c o k l, reach cfg s -> wf_choice s t c = true ->
+  dedup cfg = false -> dep0 cfg k = Some l -> xdep1 cfg k = Some l ->
   e_ret (snd (step cfg s t c)) <> Some (o, RTask (Some k)).
 Proof.
-  intros cfg s t c o k l Hr W D0 D1 E.
-  apply (same_lock_twice_never_handed cfg (fst (step cfg s t c)) k l (reach_step' _ _ _ _ Hr W) D0 D1 t).
+  intros cfg s t c o k l Hr W Hd D0 D1 E.
+  assert (D1' : dep1 cfg k = Some l) by (rewrite dep1_pinned; auto).
+  apply (same_lock_twice_never_handed cfg (fst (step cfg s t c)) k l (reach_step' _ _ _ _ Hr W) D0 D1' t).
   rewrite thr_step. rewrite step_snd in E. eapply ret_task_in_view; eauto.
 Qed.
+
+Lemma same_lock_twice_is_one_dependency : forall cfg k l, dedup cfg = true ->
+  dep0 cfg k = Some l -> xdep1 cfg k = Some l -> deps cfg k = [l].
+Proof.
+  intros cfg k l Hd D0 D1. unfold deps, dep1. rewrite D0, D1, Hd, Nat.eqb_refl. reflexivity.
+Qed.
+
+Lemma deps_nodup : forall cfg k, dedup cfg = true -> NoDup (deps cfg k).
+Proof.
+  intros cfg k Hd. unfold deps, dep1. destruct (dep0 cfg k) as [l0|]; [|constructor].
+  destruct (xdep1 cfg k) as [l1|]; [|repeat constructor; simpl; tauto].
+  rewrite Hd. simpl. destruct (Nat.eqb l0 l1) eqn:E.
+  - repeat constructor; simpl; tauto.
+  - apply Nat.eqb_neq in E. repeat constructor; simpl; intuition.
+Qed.
+
+(* repaired code: "none of its resources is held by anyone" is all it takes *)
+Definition all_free (cfg : config) (s : sys) (k : nat) : Prop := forall l, In l (deps cfg k) -> locks s l = None.
+
+Lemma free_resources_imply_handout_dedup : forall cfg s t q,
+  dedup cfg = true -> reach cfg s -> t < nthr cfg ->
+  tpc (thr s t) = Q_lock q \/ tpc (thr s t) = Q_trylock q ->
+  qlk (queues s q) = None ->
+  (exists j, j < length (qitems (queues s q)) /\ all_free cfg s (nth j (qitems (queues s q)) 0)) ->
+  eventually_handed cfg s t q.
+Proof.
+  intros cfg s t q Hd Hr Ht Hp Hq [j [Hj Hf]]. eapply free_resources_imply_handout; eauto.
+  exists j. split; auto. split; auto. now apply deps_nodup.
+Qed.
+
+Lemma scan_reaches_free_task_dedup : forall cfg t q, dedup cfg = true -> t < nthr cfg ->
+  forall idx s k, reach cfg s -> tpc (thr s t) = D_try0 (InQ q idx) k ->
+  (exists j, j < idx /\ all_free cfg s (nth j (qitems (queues s q)) 0)) ->
+  eventually_handed cfg s t q.
+Proof.
+  intros cfg t q Hd Ht idx s k Hr Hp [j [Hj Hf]]. eapply scan_reaches_free_task; eauto.
+  exists j. split; auto. split; auto. now apply deps_nodup.
+Qed.
+
+(* a task given the same lock twice: one dependency, handed out with it, one lock released *)
+Definition ex_same_cfg : config :=
+  mkConfig 1 1 (fun _ => Some 0) (fun _ => Some 0) true 0%N (fun _ => 0%N) (fun _ => 0%N) (fun _ => 0%N).
+Definition ex_same_sched : list (nat * op) :=
+  repeat (0, OAddTask 0 0) 3 ++ repeat (0, OGetTask 0) 4 ++ repeat (0, OUnlockDep 0) 2.
+Example ex_same_lock_handed_out :
+  let s := run ex_same_cfg ex_same_sched (init ex_same_cfg) in
+  (wf_sched ex_same_cfg ex_same_sched (init ex_same_cfg), locks s 0, htasks (thr s 0), length (hist s),
+   map (fun e => e_ret e) (filter (fun e => is_some (e_ret e)) (rev (hist s))))
+  = (true, None, [], 9,
+     [Some (OAddTask 0 0, RUnit); Some (OGetTask 0, RTask (Some 0)); Some (OUnlockDep 0, RUnit)]).
+Proof. vm_compute. reflexivity. Qed.
+(* the pinned variant on the same schedule: the task stays in the queue *)
+Definition ex_same_cfg_pinned : config :=
+  mkConfig 1 1 (fun _ => Some 0) (fun _ => Some 0) false 0%N (fun _ => 0%N) (fun _ => 0%N) (fun _ => 0%N).
+Example ex_same_lock_pinned_stuck :
+  let s := run ex_same_cfg_pinned (repeat (0, OAddTask 0 0) 3 ++ repeat (0, OGetTask 0) 6) (init ex_same_cfg_pinned) in
+  (qitems (queues s 0), locks s 0, map (fun e => e_ret e) (filter (fun e => is_some (e_ret e)) (rev (hist s))))
+  = ([0], None, [Some (OAddTask 0 0, RUnit); Some (OGetTask 0, RTask None)]).
+Proof. vm_compute. reflexivity. Qed.
 
 (* ------------------------------------------------------------------------------------------ *)
 (* AtomicValue::max (load + CAS loop): the variable never decreases and is at least every value
